@@ -59,8 +59,8 @@ package controllers
 //@ loop 1 invariant (err != nil || successResponses == totalResponses) && fencingQuorumSize >= 1
 //@ loop 1 invariant res != nil && successResponses <= totalResponses && forall k model.Server :: inmap(res, k) ==> listContains(s.shardMetadata.Ensemble, k)
 //@ loop 2 invariant res != nil && successResponses >= majority && forall k model.Server :: inmap(res, k) ==> listContains(s.shardMetadata.Ensemble, k)
-//@ assert at call Timer.Done#0: successResponses >= majority
-//@ assert at call Timer.Done#1: successResponses >= majority
+//@ assert at call Timer.Done#0: 2*successResponses > len(old(s.shardMetadata.Ensemble)) + len(old(s.shardMetadata.RemovedNodes))
+//@ assert at call Timer.Done#1: 2*successResponses > len(old(s.shardMetadata.Ensemble)) + len(old(s.shardMetadata.RemovedNodes))
 //@ ensures err == nil ==> res != nil && forall k model.Server :: inmap(res, k) ==> listContains(s.shardMetadata.Ensemble, k)
 
 // replaceInList: replacing a member of an ensemble of distinct servers by a server
